@@ -88,6 +88,11 @@ def build(backend):
         add("same-twice-same-bank", f"ds.Select(lambda e: (e.{x}('A').Count(), e.{x}('A').Select(lambda j: j.pt())))", [(cx, "A"), (cx, "A")], headers=[hx], libs=[lx])
         add("same-twice-diff-bank", f"ds.Select(lambda e: (e.{x}('A').Count(), e.{x}('B').Select(lambda j: j.pt())))", [(cx, "A"), (cx, "B")], headers=[hx], libs=[lx])
         add("where-then-select", f"ds.Where(lambda e: e.{x}('B').Count() >= 0).Select(lambda e: e.{x}('A').Count())", [(cx, "B"), (cx, "A")], headers=[hx], libs=[lx])
+        # ONE textual use, bound to a lambda parameter and then used at two loop depths: the same call is translated once per
+        # scope, the retrieval may run more than once, but it is still one use (one token on miniAOD)
+        add("bound-used-inner-first", f"ds.Select(lambda e: e.{x}('A')).Select(lambda js: (Range(0, 2).Select(lambda i: js.Count() + i), js.Count()))", [(cx, "A")], exact=False, headers=[hx], libs=[lx])
+        add("bound-used-outer-first", f"ds.Select(lambda e: e.{x}('A')).Select(lambda js: (js.Count(), Range(0, 2).Select(lambda i: js.Count() + i)))", [(cx, "A")], exact=False, headers=[hx], libs=[lx])
+        add("bound-used-inner-twice", f"ds.Select(lambda e: e.{x}('B')).Select(lambda js: (Range(0, 2).Select(lambda i: js.Count() + i), Range(0, 3).Select(lambda i: js.Count())))", [(cx, "B")], exact=False, headers=[hx], libs=[lx])
         add("zero-args", f"ds.Select(lambda e: e.{x}().Count())", [], expect="refuse")
         add("two-args", f"ds.Select(lambda e: e.{x}('A', 'B').Count())", [], expect="refuse")
         add("nonstring-arg", f"ds.Select(lambda e: e.{x}(1).Count())", [], expect="refuse")
